@@ -307,6 +307,28 @@ Definition via_parent (t : table) (r f g : string) : outcome (option string) :=
   | Ok None => Ok None | Throw => Throw | OutOfFuel => OutOfFuel
   end.
 
+(* one level deeper: the body found for `$o->f()` calls parent::g(); CallParentMethod gives the
+   callee the context ClassMethodContext{Class: r, SelfClass: class g was found in,
+   StaticClass: r (set when still nil)}; the body of that g then calls static::s() / self::s()
+   (lexical class = where g was found) / parent::h() (resolved from SelfClass) *)
+Definition bind2 {A} (o : outcome (option (string * meth))) (k : string -> outcome (option A)) : outcome (option A) :=
+  match o with
+  | Ok (Some (d, _)) => k d
+  | Ok None => Ok None | Throw => Throw | OutOfFuel => OutOfFuel
+  end.
+Definition via_parent_static (t : table) (r f g s : string) : outcome (option string) :=
+  bind2 (object_method t r f) (fun d =>
+  bind2 (parent_method t None d r g) (fun e =>
+  defining (static_keyword_call t (Some r) r s))).
+Definition via_parent_self (t : table) (r f g s : string) : outcome (option string) :=
+  bind2 (object_method t r f) (fun d =>
+  bind2 (parent_method t None d r g) (fun e =>
+  defining (static_call t e s))).
+Definition via_parent_parent (t : table) (r f g h : string) : outcome (option string) :=
+  bind2 (object_method t r f) (fun d =>
+  bind2 (parent_method t None d r g) (fun e =>
+  defining (parent_method t (Some e) e r h))).
+
 (* ---- like (after fix d3e2cea: the object itself is asked, ClassValue.GetMethod): for every
    instance method the target declares (ClassStatement.Methods / InterfaceStatement.Methods),
    the object must have a method of that name with the same number of parameters *)
